@@ -253,7 +253,7 @@ func (g *generator) generateFlow(file *file, f *flow, w io.Writer, addImports ma
 	}); err != nil {
 		return err
 	}
-	if _, err := io.WriteString(w, "func() (err error) {\n"); err != nil {
+	if _, err := io.WriteString(w, "func() (_cffErr error) {\n"); err != nil {
 		return err
 	}
 
